@@ -20,3 +20,34 @@ def replace_everywhere(real, fake, prefix="taskiq"):
                 setattr(m, k, fake)
                 done.append(n + "." + k)
     return done
+
+
+import types as _types
+
+_SHIMS = {}         # id(real module) -> forwarding stand-in module
+
+
+class _Fwd(_types.ModuleType):
+    """a module object that answers like `real` except for the names set on it"""
+
+    def __init__(self, real):
+        _types.ModuleType.__init__(self, real.__name__)
+        self.__dict__["_real"] = real
+
+    def __getattr__(self, n):
+        return getattr(self.__dict__["_real"], n)
+
+
+def patch_attr(real_module, name, fake, prefix="taskiq"):
+    """Wherever the package reaches `real_module.<name>` it gets `fake`: the object itself bound under any name
+    (`from m import name [as x]`) and the module bound under any name (`import m [as x]`, `from pkg import m`) - the latter
+    becomes a forwarding stand-in module that differs from the real one in the patched names only.  Call again with the real
+    object as `fake` to undo."""
+    real_obj = getattr(real_module, name)
+    done = replace_everywhere(real_obj, fake, prefix)
+    shim = _SHIMS.get(id(real_module))
+    if shim is None:
+        shim = _SHIMS[id(real_module)] = _Fwd(real_module)
+    shim.__dict__[name] = fake
+    done += replace_everywhere(real_module, shim, prefix)
+    return done
